@@ -68,6 +68,8 @@ func main() {
 		switch os.Args[2] {
 		case "book":
 			genBook(seed, n, os.Args[5])
+		case "wds":
+			genWds(seed, n, os.Args[5])
 		default:
 			genEquiv(os.Args[2], seed, n, os.Args[5])
 		}
@@ -215,6 +217,7 @@ func (s *sotwStream) Recv() (*discovery.DiscoveryRequest, error) { return nil, e
 type deltaStream struct {
 	baseStream
 	got []wireResp
+	raw []*discovery.DeltaDiscoveryResponse
 }
 
 func (s *deltaStream) Send(r *discovery.DeltaDiscoveryResponse) error {
@@ -227,6 +230,7 @@ func (s *deltaStream) Send(r *discovery.DeltaDiscoveryResponse) error {
 		w.res = append(w.res, res{rr.Name, v})
 	}
 	s.got = append(s.got, w)
+	s.raw = append(s.raw, r)
 	return nil
 }
 func (s *deltaStream) Recv() (*discovery.DeltaDiscoveryRequest, error) {
@@ -541,9 +545,12 @@ func execOps(stream, in, outp string) {
 	defer out.Close()
 	b := newBook()
 	e := newEquiv("equiv")
+	w := newWds()
 	for _, f := range wire.ReadLines(in) {
 		if stream == "book" {
 			out.Line(b.apply(f))
+		} else if stream == "wds" {
+			out.Line(w.apply(f))
 		} else {
 			out.Line(e.apply(f))
 		}
@@ -911,6 +918,9 @@ func oracle(stream, in, outp string) {
 }
 
 func oracleLines(stream, in string) []string {
+	if stream == "wds" {
+		return oracleWds(in)
+	}
 	var verdicts []string
 	verdict, open, idx := "", false, 0
 	flush := func() {
